@@ -269,6 +269,23 @@ Proof.
   intros t. destruct t as [|t]; split; reflexivity.
 Qed.
 
+
+(** the digest is fed the rule contents without their keys. When the edit changes what names ARE (a name that
+    was an explicitly versioned function becomes a variable and another one the function), two editions can feed
+    it the same sequence and behave differently: this is why the arbitrary-structure theorem keeps the keys, and
+    why the key-less one assumes the same reference structure *)
+Theorem contents_only_arbitrary_structure_refuted :
+  let sem := fun c d (env : nat -> res) => match env 1, env 2 with Val a, Val b => Val (c + a * 2 + b) | _, _ => Val c end in
+  let pin := {| s_kind := SMemento (Some 1); s_code := 7; s_defaults := 0; s_refs := [] |} in
+  let var := {| s_kind := SVar (Some 5); s_code := 0; s_defaults := 0; s_refs := [] |} in
+  let root := {| s_kind := SMemento None; s_code := 100; s_defaults := 0; s_refs := [1; 2] |} in
+  let p := table [(1, pin); (2, var); (3, root)] in
+  let q := table [(1, var); (2, pin); (3, root)] in
+  version_input p true (collect p 16 3) = version_input q true (collect q 16 3) /\
+  keyed_input p true (collect p 16 3) <> keyed_input q true (collect q 16 3) /\
+  eval sem 4 p 3 <> eval sem 4 q 3.
+Proof. split; [vm_compute; reflexivity|split; vm_compute; discriminate]. Qed.
+
 (** ---- the store across editions ---- *)
 Section MemoProofs.
 Variable sem : nat -> nat -> (nat -> res) -> res.
